@@ -159,13 +159,30 @@ def fmt(t, depth=0):
     return "%s(%s)" % (k, ", ".join(f(x) if isinstance(x, tuple) else repr(x) for x in t[1:]))
 
 
+UNIT_HELPERS = {"sempler.lganm._parse_interventions", "sempler.semi._bootstrap"}
+
+
+def home_qname(ctx):
+    """The function a fact is attributed to: code of an *inlined private helper* (a `_name` function or method of the repository,
+    expanded at its call site) counts as code of the function that called it - extracting a helper does not move an obligation."""
+    cur = ctx
+    for _ in range(12):
+        f = cur.func
+        if f is None or not (f.name.startswith("_") and not f.name.startswith("__")) or cur.parent is None or cur.parent.func is None:
+            break
+        cur = cur.parent
+    return cur.qname
+
+
 class Fact:
     """one recorded program fact (call / store / raise / return / loop)"""
 
     def __init__(self, kind, ctx, node, env, **kw):
         self.kind, self.node = kind, node
         self.func = ctx.func
-        self.qname = ctx.qname
+        # a `return` inside an inlined helper ends the helper, not its caller: it stays the helper's fact
+        self.qname = home_qname(ctx) if kind != "return" else ctx.qname
+        self.where_qname = ctx.qname
         self.root = (ctx.stack[0][:-6] if ctx.stack[0].endswith("@entry") else ctx.stack[0]) if ctx.stack else ctx.qname      # the function whose analysis reached this (through inlined helpers / its decorators)
         self.path = env.get("$path", ()) if env is not None else ()
         self.loops = env.get("$loops", ()) if env is not None else ()
@@ -182,7 +199,10 @@ class Sym(Interp):
 
     def __init__(self, prog, inline=None):
         super().__init__(prog)
-        self.inline = inline or (lambda func: False)
+        # default policy: private helpers (`_name`, functions and methods) are expanded at their call sites - extracting a helper
+        # must not hide what a function computes - except the two private functions of today's tree that the rules treat as units
+        # of their own (analysed where they are defined, referred to by name at their call sites)
+        self.inline = inline or (lambda func: func.name.startswith("_") and not func.name.startswith("__") and func.qname not in UNIT_HELPERS)
         self.facts = []
         self._order = 0
         self.loopinfo = {}
@@ -594,6 +614,36 @@ class Sym(Interp):
     def h_apply_effects(self, effects, func, bound, n, env, ctx):
         pass
 
+    def h_returns(self, rets, entry_env, ctx):
+        """early returns / guard clauses: the returned value is the phi over the conditions that separate the returns
+        (`if c: return a` ... `return b`  ==  `return a if c else b`), not an unordered join"""
+        base = len(entry_env.get("$path", ()) or ())
+        items = []
+        for v, node, env in rets:
+            p_ = tuple((env.get("$path", ()) or ())[base:])
+            if isinstance(v, GENERIC_VALUES) and not isinstance(v, TupleV):
+                return None
+            items.append((p_, T(v) if not isinstance(v, TupleV) else T(v)))
+
+        def build(group, depth):
+            if len(group) == 1:
+                return group[0][1]
+            if all(g[1] == group[0][1] for g in group):
+                return group[0][1]
+            conds = {g[0][depth][0] for g in group if len(g[0]) > depth}
+            if len(conds) != 1 or any(len(g[0]) <= depth for g in group):
+                return None
+            c = next(iter(conds))
+            yes = [g for g in group if g[0][depth][1] is True]
+            no = [g for g in group if g[0][depth][1] is False]
+            if not yes or not no or len(yes) + len(no) != len(group):
+                return None
+            a, b = build(yes, depth + 1), build(no, depth + 1)
+            if a is None or b is None:
+                return None
+            return self.mkphi(c, a, b)
+        return build(items, 0)
+
     def v_join(self, a, b):
         a, b = T(a), T(b)
         if a == b:
@@ -699,7 +749,7 @@ class Sym(Interp):
                 itv0 = TupleV([StaticV(k) for k in itv0.items], ARGS)
             if isinstance(itv0, TupleV) and itv0.kind == ARGS:
                 return self._unrolled(s, list(itv0.items), env, ctx)
-        lid = ("loop", getattr(s, "lineno", 0), ctx.qname)
+        lid = ("loop", getattr(s, "lineno", 0), home_qname(ctx))
         nfacts = len(self.facts)
         order = self._order
         # pass 1: which names does the body rebind?
@@ -777,7 +827,7 @@ class Sym(Interp):
                     continue
             nxt[k] = u[0] if len(u) == 1 else (("join", tuple(u)) if u else ("mu", lid, k))
         self.loopinfo[lid] = {"node": s, "iter": T(itv) if itv is not None else None, "test": T(test) if test is not None else None,
-                              "init": init, "next": nxt, "changed": sorted(changed), "func": ctx.qname,
+                              "init": init, "next": nxt, "changed": sorted(changed), "func": home_qname(ctx),
                               "body_out": out, "breaks": lp["breaks"], "entry": entry,
                               "target": norm(s.target) if is_for else None}
         self.fact("loop", ctx, s, env, lid=lid, iter=T(itv) if itv is not None else None,
